@@ -10,7 +10,7 @@ From C17 Require Import Sem Progs Static.
 Definition gv (x : nat) : option nat :=
   match x with
   | 0 => Some M | 1 => Some TM | 4 => Some PM | 8 => Some FM | 9 => Some FM | 10 => Some FM | 16 => Some PLM | 17 => Some TMA | 18 => Some TMB
-  | 33 => Some TM2 | 37 => Some SM | 38 => Some OWN | _ => None
+  | 33 => Some TM2 | 37 => Some SM | 38 => Some OWN | 42 => Some SM2 | _ => None
   end.
 Definition gq (q : nat) : option nat := match q with 0 => Some M | 2 => Some IM | 16 => Some PLM | 34 => Some IMS | _ => None end.
 
@@ -54,14 +54,20 @@ Definition An : annot := fun id =>
   | 19 => [ (mkA [] false); (mkA [] false); (mkA [] false); (mkA [LX] false); (mkA [] false); (mkA [LY] false); (mkA [] false); (mkA [] false); (mkA [] false); (mkA [] false) ]
   | 20 => [ (mkA [] false); (mkA [LX] false); (mkA [] false); (mkA [LX] false); (mkA [] false) ]
   | 21 => [ (mkA [] false); (mkA [] false); (mkA [] false); (mkA [] false); (mkA [] false); (mkA [] false); (mkA [] false); (mkA [] false); (mkA [] false); (mkA [] false); (mkA [IM] false); (mkA [IM] false); (mkA [] false); (mkA [] false); (mkA [] true); (mkA [] false); (mkA [IM] false); (mkA [IM] false); (mkA [] false); (mkA [] false); (mkA [] false); (mkA [IM] false); (mkA [IM] false); (mkA [] false); (mkA [] false); (mkA [IM] false); (mkA [IM] false); (mkA [IM] false); (mkA [] false); (mkA [] false); (mkA [] true); (mkA [] false); (mkA [IM] false); (mkA [IM] false); (mkA [] false); (mkA [] false); (mkA [IM] false); (mkA [] false); (mkA [] false); (mkA [] false); (mkA [] false); (mkA [] false); (mkA [] false); (mkA [IM] false); (mkA [IM] false); (mkA [IM] false); (mkA [] false); (mkA [] false); (mkA [] true); (mkA [] false); (mkA [IM] false); (mkA [IM] false); (mkA [] false); (mkA [] false); (mkA [] false); (mkA [IM] false); (mkA [IM] false); (mkA [] false); (mkA [] false); (mkA [IM] false); (mkA [IM] false); (mkA [IM] false); (mkA [] false); (mkA [] false); (mkA [] true); (mkA [] false); (mkA [IM] false); (mkA [IM] false); (mkA [] false); (mkA [] false); (mkA [IM] false); (mkA [] false); (mkA [IM] false); (mkA [] false) ]
-  | 22 => [ (mkA [] false); (mkA [OWN] false); (mkA [OWN; TM2] false); (mkA [OWN; TM2] false); (mkA [OWN; TM2] false); (mkA [OWN; TM2] false); (mkA [OWN; TM2] false); (mkA [OWN; TM2] false); (mkA [OWN] false); (mkA [OWN] false); (mkA [OWN] false); (mkA [IMS; OWN] false); (mkA [IMS; OWN] false); (mkA [OWN] false); (mkA [OWN] false); (mkA [OWN] false); (mkA [OWN; SM] false); (mkA [OWN; SM] false); (mkA [IMS; OWN; SM] false); (mkA [IMS; OWN; SM] false); (mkA [OWN; SM] false); (mkA [OWN; SM] false); (mkA [OWN; SM] false); (mkA [OWN; SM] false); (mkA [OWN; SM] false); (mkA [OWN] false); (mkA [OWN] false); (mkA [OWN] false); (mkA [OWN] false); (mkA [OWN] false); (mkA [IMS; OWN] false); (mkA [IMS; OWN] false); (mkA [OWN] false); (mkA [OWN] false); (mkA [OWN; TM2] false); (mkA [OWN; TM2] false); (mkA [OWN] false); (mkA [OWN] false); (mkA [OWN] false); (mkA [OWN] false); (mkA [OWN; TM2] false); (mkA [OWN; TM2] false); (mkA [OWN] false); (mkA [IMS; OWN] false); (mkA [IMS; OWN] false); (mkA [OWN] false); (mkA [] false) ]
-  | 23 => [ (mkA [] false); (mkA [TM2] false); (mkA [TM2] false); (mkA [] false); (mkA [] false); (mkA [] false); (mkA [] false); (mkA [] false); (mkA [] false); (mkA [] false); (mkA [IMS] false); (mkA [IMS] false); (mkA [] false); (mkA [] false); (mkA [] true); (mkA [] false); (mkA [] false); (mkA [SM] false); (mkA [SM] false); (mkA [SM] false); (mkA [] false); (mkA [] false); (mkA [] false); (mkA [] false); (mkA [] false) ]
+  | 22 => [ (mkA [] false); (mkA [OWN] false); (mkA [OWN; TM2] false); (mkA [OWN; TM2] false); (mkA [OWN; TM2] false); (mkA [OWN; TM2] false); (mkA [OWN; TM2] false); (mkA [OWN; TM2] false); (mkA [OWN] false); (mkA [OWN] false); (mkA [OWN] false); (mkA [IMS; OWN] false); (mkA [IMS; OWN] false); (mkA [OWN] false); (mkA [OWN] false); (mkA [OWN] false); (mkA [OWN; SM] false); (mkA [OWN; SM] false); (mkA [IMS; OWN; SM] false); (mkA [IMS; OWN; SM] false); (mkA [OWN; SM] false); (mkA [OWN; SM] false); (mkA [OWN; SM] false); (mkA [OWN; SM] false); (mkA [OWN; SM] false); (mkA [OWN] false); (mkA [OWN] false); (mkA [OWN] false); (mkA [OWN] false); (mkA [IMS; OWN] false); (mkA [IMS; OWN] false); (mkA [OWN] false); (mkA [OWN] false); (mkA [OWN; TM2] false); (mkA [OWN; TM2] false); (mkA [OWN] false); (mkA [OWN] false); (mkA [OWN] false); (mkA [OWN] false); (mkA [OWN; TM2] false); (mkA [OWN; TM2] false); (mkA [OWN] false); (mkA [IMS; OWN] false); (mkA [IMS; OWN] false); (mkA [OWN] false); (mkA [] false) ]
+  | 23 => [ (mkA [] false); (mkA [TM2] false); (mkA [TM2] false); (mkA [] false); (mkA [] false); (mkA [] false); (mkA [] false); (mkA [] false); (mkA [] false); (mkA [] false); (mkA [IMS] false); (mkA [IMS] false); (mkA [] false); (mkA [] false); (mkA [] true); (mkA [] false); (mkA [] false); (mkA [] false); (mkA [] false); (mkA [SM] false); (mkA [SM] false); (mkA [SM] false); (mkA [] false); (mkA [] false); (mkA [SM2] false); (mkA [SM2] false); (mkA [SM2] false); (mkA [] false); (mkA [] false); (mkA [] false); (mkA [] false); (mkA [IMS] false); (mkA [IMS] false); (mkA [] false); (mkA [] false); (mkA [] false); (mkA [] false); (mkA [] false); (mkA [] false) ]
+  | 24 => [ (mkA [] false); (mkA [] false); (mkA [IM] false); (mkA [IM] false); (mkA [] false); (mkA [] false); (mkA [] false); (mkA [] false); (mkA [] false); (mkA [] false); (mkA [] false); (mkA [IM] false); (mkA [IM] false); (mkA [] false); (mkA [] false); (mkA [] true); (mkA [] false); (mkA [] false); (mkA [] false); (mkA [] false); (mkA [] false); (mkA [] false); (mkA [] false); (mkA [] false); (mkA [] false); (mkA [] false); (mkA [IM] false); (mkA [IM] false); (mkA [] false); (mkA [] false); (mkA [] false); (mkA [] false); (mkA [] false); (mkA [] false); (mkA [] false); (mkA [IM] false); (mkA [IM] false); (mkA [] false); (mkA [] false); (mkA [] true); (mkA [] false); (mkA [] false); (mkA [] false); (mkA [] false); (mkA [] false); (mkA [] false); (mkA [] false); (mkA [] false); (mkA [] false); (mkA [IM] false); (mkA [IM] false); (mkA [IM] false); (mkA [] false); (mkA [] false); (mkA [] true); (mkA [] false); (mkA [IM] false); (mkA [] false) ]
+  | 25 => [ (mkA [] false); (mkA [] false); (mkA [IM] false); (mkA [IM] false); (mkA [] false); (mkA [] false); (mkA [] false); (mkA [] false); (mkA [IM] false); (mkA [IM] false); (mkA [] false); (mkA [] false); (mkA [] false); (mkA [IM] false); (mkA [IM] false); (mkA [] false); (mkA [] false); (mkA [] false); (mkA [IM] false); (mkA [IM] false); (mkA [] false); (mkA [] false) ]
+  | 26 => [ (mkA [] false); (mkA [] false); (mkA [IM] false); (mkA [IM] false); (mkA [] false); (mkA [] false); (mkA [] false); (mkA [] false); (mkA [IM] false); (mkA [IM] false); (mkA [] false); (mkA [] false) ]
+  | 27 => [ (mkA [] false); (mkA [OWN] false); (mkA [OWN; TM2] false); (mkA [OWN; TM2] false); (mkA [OWN; TM2] false); (mkA [OWN; TM2] false); (mkA [OWN; TM2] false); (mkA [OWN; TM2] false); (mkA [OWN] false); (mkA [OWN] false); (mkA [OWN; SM] false); (mkA [OWN; SM] false); (mkA [IMS; OWN; SM] false); (mkA [IMS; OWN; SM] false); (mkA [OWN; SM] false); (mkA [OWN; SM] false); (mkA [OWN; SM] false); (mkA [OWN; SM] false); (mkA [OWN; SM] false); (mkA [OWN] false); (mkA [OWN] false); (mkA [OWN] false); (mkA [OWN] false); (mkA [IMS; OWN] false); (mkA [IMS; OWN] false); (mkA [OWN] false); (mkA [OWN] false); (mkA [OWN; TM2] false); (mkA [OWN; TM2] false); (mkA [OWN] false); (mkA [OWN] false); (mkA [OWN] false); (mkA [OWN] false); (mkA [OWN; TM2] false); (mkA [OWN; TM2] false); (mkA [OWN] false); (mkA [IMS; OWN] false); (mkA [IMS; OWN] false); (mkA [OWN] false); (mkA [] false) ]
+  | 28 => [ (mkA [] false); (mkA [SM2] false); (mkA [SM2] false); (mkA [IMS; SM2] false); (mkA [IMS; SM2] false); (mkA [SM2] false); (mkA [SM2] false); (mkA [SM2] false); (mkA [SM2] false); (mkA [SM2] false); (mkA [] false) ]
+  | 29 => [ (mkA [] false); (mkA [OWN] false); (mkA [OWN; TM2] false); (mkA [OWN; TM2] false); (mkA [OWN; TM2] false); (mkA [OWN; TM2] false); (mkA [OWN; TM2] false); (mkA [OWN; TM2] false); (mkA [OWN] false); (mkA [OWN] false); (mkA [IMS; OWN] false); (mkA [IMS; OWN] false); (mkA [OWN] false); (mkA [OWN] false); (mkA [OWN; TM2] false); (mkA [OWN; TM2] false); (mkA [OWN] false); (mkA [OWN] false); (mkA [OWN] false); (mkA [OWN] false); (mkA [OWN; TM2] false); (mkA [OWN; TM2] false); (mkA [OWN] false); (mkA [IMS; OWN] false); (mkA [IMS; OWN] false); (mkA [OWN] false); (mkA [] false) ]
   | _ => []
   end.
 
 Lemma check_all : forall id, check_prog gv gq (P id) (An id) = true.
 Proof.
-  intros id. do 24 (destruct id as [|id]; [vm_compute; reflexivity|]). reflexivity.
+  intros id. do 30 (destruct id as [|id]; [vm_compute; reflexivity|]). reflexivity.
 Qed.
 
 (* the pre-fix code does not pass: Thread::Join wrote m_running without Thread::m_mutex *)
@@ -80,7 +86,10 @@ Inductive initial : state -> Prop :=
 | init_pl n : initial (init_pool n)
 | init_lk : initial init_locker
 | init_sd lims rs k : initial (init_ssd lims rs k)
-| init_pf : initial init_prefs.
+| init_pf : initial init_prefs
+| init_pf2 : initial init_prefs2
+| init_pfj : initial init_prefsj
+| init_tm : initial init_term.
 
 Lemma initial_inv s0 : initial s0 -> Inv P An s0 /\ fault s0 = None.
 Proof.
@@ -103,4 +112,7 @@ Proof.
   - destruct t as [|i]; cbn; auto.
     match goal with |- context [if ?c then _ else _] => destruct c end; cbn; auto.
   - destruct t as [|[|i]]; cbn; auto.
+  - destruct t as [|[|[|i]]]; cbn; auto.
+  - destruct t as [|[|i]]; cbn; auto.
+  - destruct t as [|[|[|i]]]; cbn; auto.
 Qed.
